@@ -90,6 +90,7 @@ _k("sub2", ["arr2", N, N], lambda a, i, j: p.Subscript(a, (i, j)), ["sub"])
 _k("lookup", ["rec"], lambda a: p.Lookup(a, "fld"), ["lookup"])
 _k("cse", [N], lambda c: p.CommonSubexpression(c), ["cse"])
 _k("cse_pfx", [N], lambda c: p.CommonSubexpression(c, "pfx", p.cse_scope.EXPRESSION), ["cse"])
+_k("cse_glob", [N], lambda c: p.CommonSubexpression(c, None, p.cse_scope.GLOBAL), ["cse"])
 _k("tuple2", [N, N], lambda a, b: (a, b), ["struct"])
 _k("list2", [N, N], lambda a, b: [a, b], ["struct"])
 _k("array2", [N, N], lambda a, b: _objarr(a, b), ["struct"])
